@@ -19,7 +19,7 @@ func Snapshot(v any) string {
 }
 
 func snap(b *strings.Builder, v reflect.Value, depth int) {
-	if depth > 48 {
+	if depth > 400 {
 		b.WriteString("<deep>")
 		return
 	}
@@ -66,7 +66,12 @@ func snap(b *strings.Builder, v reflect.Value, depth int) {
 			snap(&vb, it.Value(), depth+1)
 			es = append(es, kv{kb.String(), vb.String()})
 		}
-		sort.Slice(es, func(i, j int) bool { return es[i].k < es[j].k })
+		sort.Slice(es, func(i, j int) bool {
+			if es[i].k != es[j].k {
+				return es[i].k < es[j].k
+			}
+			return es[i].v < es[j].v
+		})
 		fmt.Fprintf(b, "%s{", v.Type())
 		for i, e := range es {
 			if i > 0 {
